@@ -60,7 +60,7 @@ def run(tier):
                     continue
             if not ins:
                 continue
-            if f.path in SWITCHERS and field == "env":
+            if (f.path in SWITCHERS or f.path in EV.scope_entering_helpers(fx, "env")) and field == "env":
                 ck.instance(rule, f.path + " (environment switcher)", F.short_span(ins[0][1]))
                 continue
             closers = {b for b, _ in res} | ho
@@ -71,7 +71,7 @@ def run(tier):
                     continue
                 seen_sites.add(site)
                 n_env += 1
-                esc = E.escapes_some_sensitive(fx, f, b, closers)
+                esc = E.escapes_some_sensitive(fx, f, b, closers, assume=tuple(E.some_facts_at(fx, f, b)))
                 ck.instance(rule, "%s/%s" % (f.path, field), site, ok=esc is None)
                 if esc is not None:
                     wit = E.path_witness(f, b, closers)
